@@ -70,7 +70,7 @@ fn other_ctl() -> BoxedStrategy<RCtl> {
 
 pub fn pages_strat(with_noise: bool) -> BoxedStrategy<Vec<Page>> {
     let kind = if with_noise { prop_oneof![5 => Just(Kind::Entry), 1 => Just(Kind::Reference), 1 => Just(Kind::Intermediate)].boxed() } else { Just(Kind::Entry).boxed() };
-    let page = (vec(kind, 0..8), prop_oneof![3 => gens::blob(12), 1 => (proptest::sample::select(&[127u32, 128, 300][..]), any::<u8>()).prop_map(|(n, b)| vec![b; n as usize])], prop_oneof![2 => 0i32..=i32::MAX, 1 => 0i32..1000, 2 => proptest::sample::select(&[0i32, 1, 127, 128, 255, 256, 32767, 32768, 65535, 65536, 8388607, 8388608, 16777215, 16777216, i32::MAX - 1, i32::MAX][..])], vec(other_ctl(), 0..3), any::<u8>())
+    let page = (vec(kind, 0..8), prop_oneof![3 => gens::blob(12), 1 => (proptest::sample::select(&[127u32, 128, 300][..]), any::<u8>()).prop_map(|(n, b)| vec![b; n as usize]), 1 => (gens::blob(6), 0usize..7).prop_map(|(mut a, k)| { const TAILS: [&[u8]; 7] = [&[0x04, 0x00], &[0x30, 0x00], &[0x02, 0x01, 0x00, 0x04, 0x00], &[0x00], &[0x30, 0x05, 0x02, 0x01, 0x00, 0x04, 0x00], &[0xff], &[0x80]]; a.extend_from_slice(TAILS[k]); a })], prop_oneof![2 => 0i32..=i32::MAX, 1 => 0i32..1000, 2 => proptest::sample::select(&[0i32, 1, 127, 128, 255, 256, 32767, 32768, 65535, 65536, 8388607, 8388608, 16777215, 16777216, i32::MAX - 1, i32::MAX][..])], vec(other_ctl(), 0..3), any::<u8>())
         .prop_map(|(items, cookie, estimate, other, pos)| Page { items, cookie, estimate, other, pos });
     vec(page, 1..6)
         .prop_map(|mut pages| {
